@@ -39,7 +39,7 @@ def event_string(h, limit=60):
         elif k == "enqueue":
             s.append("e%d" % e["idx"])
         elif k == "cancel":
-            s.append("c%d" % e["tid"])
+            s.append("c%d%s" % (e["tid"], "i" if e.get("immediate") else ""))
         elif k == "time":
             s.append("t")
         elif k == "client":
